@@ -99,7 +99,7 @@ func (l *tracer) EvaluateRuleEntry(ctx context.Context, c uint64, e *ast.RuleEnt
 	if !l.primary {
 		return
 	}
-	l.em.Emit(J{"ev": "eval", "n": c, "r": e.RuleName, "can": can})
+	l.em.Emit(J{"ev": "eval", "n": c, "r": e.RuleName, "can": can, "del": e.Deleted})
 	l.gate("eval")
 }
 func (l *tracer) ExecuteRuleEntry(ctx context.Context, c uint64, e *ast.RuleEntry) {
@@ -108,7 +108,7 @@ func (l *tracer) ExecuteRuleEntry(ctx context.Context, c uint64, e *ast.RuleEntr
 		return
 	}
 	l.gate("exec") // a cancellation here precedes the announcement: the engine then refuses to run the rule
-	l.em.Emit(J{"ev": "exec", "n": c, "r": e.RuleName})
+	l.em.Emit(J{"ev": "exec", "n": c, "r": e.RuleName, "del": e.Deleted})
 }
 
 var reActErr = regexp.MustCompile(`^error while executing rule (\S+)\. got`)
@@ -297,6 +297,7 @@ func runCall(c *Case, ci int, kb *ast.KnowledgeBase, em *Emitter, watchdog time.
 		err     error
 		matched []string
 		sal     []int
+		anyDel  bool
 		pan     interface{}
 	}
 	done := make(chan result, 1)
@@ -314,6 +315,7 @@ func runCall(c *Case, ci int, kb *ast.KnowledgeBase, em *Emitter, watchdog time.
 			for _, re := range res {
 				r.matched = append(r.matched, re.RuleName)
 				r.sal = append(r.sal, re.Salience)
+				r.anyDel = r.anyDel || re.Deleted
 			}
 		} else if cc.UseCtx || cc.CancelAt >= 0 || cc.Deadline {
 			r.err = eng.ExecuteWithContext(ctx, dc, kb)
@@ -350,6 +352,7 @@ func runCall(c *Case, ci int, kb *ast.KnowledgeBase, em *Emitter, watchdog time.
 		}
 		ret["matched"] = r.matched
 		ret["sal"] = r.sal
+		ret["anydel"] = r.anyDel
 	}
 	lsnOK := true
 	for i := 1; i < len(shadows); i++ {
